@@ -746,7 +746,12 @@ def check(ctx):
         helper = next((call_name(c) for c in ast.walk(rf_) if isinstance(c, ast.Call) and (call_name(c) or "").startswith("self._") and call_name(c) not in known_calls), None)
         if helper:
             raise Abstain(f"private helper {helper} could not be inlined")
-        wit = rg.must_pass([rg.entry], stores, to=set(rets), exc=False) if stores else rg.path([rg.entry], rets, edge_ok=lambda a, b, l: l != "exc")
+        for sd in rg.find(lambda x: isinstance(x, ast.Call) and call_attr(x) == "setdefault" and is_table(x.func.value)):
+            if rg.edge_guards(sd):
+                raise Abstain("a guarded setdefault on the reference table (a store when the guard implies the id is absent)")
+        # `assert 0, ...` (a constant-false assertion) ends its path: nothing is returned from there
+        dead = rg.ids(lambda n: n.kind == "stmt" and isinstance(n.ast, ast.Assert) and isinstance(n.ast.test, ast.Constant) and not n.ast.test.value)
+        wit = rg.must_pass([rg.entry], set(stores) | set(dead), to=set(rets), exc=False) if stores else rg.path([rg.entry], rets, edge_ok=lambda a, b, l: l != "exc")
         ctx.check(bool(stores) and wit is None, "references/registered-on-every-path", rq + f" | self.references[...] = {obj}",
                   f"_unjelly_reference can return {obj} without having stored it in the reference table (a conditional store such as setdefault keeps an earlier placeholder there): "
                   "a later dereference of the same id - the second mention of a cyclic object - gets the spent placeholder instead of the object", witness=rg.describe(wit))
@@ -894,8 +899,12 @@ MUTANTS = [
            expect_rule="policy/module-exact-membership"),
     Mutant("type-policy-allows-code-atoms-by-default", JELLY, '            b"frozenset": 1,\n        }\n', '            b"frozenset": 1,\n            b"function": 1,\n        }\n', expect_rule="policy/defaults-empty"),
     Mutant("registry-filled-from-wire", JELLY, "        regClass = unjellyableRegistry.get(jelTypeBytes)\n", "        regClass = unjellyableRegistry.setdefault(jelTypeBytes, None)\n", expect_rule="registry/who-may-write"),
+    Mutant('placeholder-notified-but-left-in-the-table', JELLY, '        ref = self.references.get(refid)\n        if ref is None:\n            self.references[refid] = o\n        elif isinstance(ref, NotKnown):\n            ref.resolveDependants(o)\n            self.references[refid] = o\n        else:\n            assert 0, "Multiple references with same ID!"\n        return o\n', '        ref = self.references.get(refid)\n        if ref is None:\n            self.references[refid] = o\n        elif isinstance(ref, NotKnown):\n            ref.resolveDependants(o)\n        else:\n            assert 0, "Multiple references with same ID!"\n        return o\n', expect_rule='references/registered-on-every-path'),
+    Mutant('reference-stored-only-for-a-new-id', JELLY, '        ref = self.references.get(refid)\n        if ref is None:\n            self.references[refid] = o\n        elif isinstance(ref, NotKnown):\n            ref.resolveDependants(o)\n            self.references[refid] = o\n        else:\n            assert 0, "Multiple references with same ID!"\n        return o\n', '        ref = self.references.get(refid)\n        if refid not in self.references:\n            self.references[refid] = o\n        if isinstance(ref, NotKnown):\n            ref.resolveDependants(o)\n        return o\n', expect_rule='references/table-discipline'),
 ]
 SILENT = [
+    Silent('new-id-stored-with-a-guarded-setdefault', JELLY, '        ref = self.references.get(refid)\n        if ref is None:\n            self.references[refid] = o\n        elif isinstance(ref, NotKnown):\n            ref.resolveDependants(o)\n            self.references[refid] = o\n        else:\n            assert 0, "Multiple references with same ID!"\n        return o\n', '        ref = self.references.get(refid)\n        if ref is None:\n            self.references.setdefault(refid, o)\n        elif isinstance(ref, NotKnown):\n            ref.resolveDependants(o)\n            self.references[refid] = o\n        else:\n            assert 0, "Multiple references with same ID!"\n        return o\n'),
+    Silent('reference-stored-first-then-placeholder-notified', JELLY, '        ref = self.references.get(refid)\n        if ref is None:\n            self.references[refid] = o\n        elif isinstance(ref, NotKnown):\n            ref.resolveDependants(o)\n            self.references[refid] = o\n        else:\n            assert 0, "Multiple references with same ID!"\n        return o\n', '        ref = self.references.get(refid)\n        self.references[refid] = o\n        if isinstance(ref, NotKnown):\n            ref.resolveDependants(o)\n        elif ref is not None:\n            assert 0, "Multiple references with same ID!"\n        return o\n'),
     Silent("rename-and-invert-guard", JELLY, '        if not self.taster.isModuleAllowed(modName):\n            raise InsecureJelly("Module not allowed: %s" % modName)\n        # XXX do I need an isFunctionAllowed?\n        function = namedAny(fname)\n        return function\n',
            '        if self.taster.isModuleAllowed(modName):\n            fn = namedAny(fname)\n            return fn\n        raise InsecureJelly("Module not allowed: %s" % modName)\n'),
     Silent("module-part-by-rpartition", JELLY, '        clist = cname.split(nativeString("."))\n        modName = nativeString(".").join(clist[:-1])\n', '        modName = cname.rpartition(".")[0]\n'),
